@@ -239,7 +239,7 @@ class Ctx:
                 errs = re.findall(r"Error: .*", out)
                 res.error = "; ".join(errs[:3]) or ("rc=%s" % res.rc)
         # coverage
-        for m in re.finditer(r"^<(\w+) line \d+, col \d+ to line \d+, col \d+ of module (\w+)>: (\d+):(\d+)", out, re.M):
+        for m in re.finditer(r"^<(\w+) line \d+, col \d+ to line \d+, col \d+ of module (\w+)(?: \([\d ]+\))?>: (\d+):(\d+)", out, re.M):
             name = m.group(1)
             a, b = int(m.group(3)), int(m.group(4))
             old = res.coverage.get(name, (0, 0))
